@@ -129,8 +129,13 @@ def rule_X5(ctx) -> None:
             def repeats(t):
                 return [x[3] if x[2][0] == "c" else x[2] for x in walk(t) if x[0] == "op" and x[1] == "*" and len(x) == 4 and
                         (x[2][0] == "c" and isinstance(x[2][1], str) or x[3][0] == "c" and isinstance(x[3][1], str))]
+            def core(d):
+                # the distance up to an additive constant: '.' * (up + 1) and '_' * up walk the same distance
+                while d[0] == "op" and d[1] in ("+", "-") and len(d) == 4 and (d[3][0] == "c" or (d[2][0] == "c" and d[1] == "+")) :
+                    d = d[2] if d[3][0] == "c" else d[3]
+                return d
             need = repeats(from_path)
-            missing = [d for d in need if not contains(alias, d)]
+            missing = [d for d in need if not contains(alias, d) and not (core(d)[0] != "c" and contains(alias, core(d)))]
             if need and missing:
                 bad = (q, show(alias), [show(d) for d in missing])
         name = f"{q}:alias-depends-on-distance"
